@@ -106,48 +106,80 @@ def register(OPS, drv):
 
     def op_faults(job):
         """Requests served while opening ONE path fails (after isfile()/stat succeeded):
-        cases {fault: eacces|eio|vanish, path: selector, requests}."""
+        cases {fault: eacces|eio|emfile|vanish, path: selector, requests, nth (default 1), call: open|listdir}.
+        Within each request the first nth-1 calls on the path succeed; the nth and every later one fails
+        (vanish: the file is really removed at the nth call, and put back after the request)."""
         import errno
         import os
         import pygopherd.handlers.base as hbase
         w = drv.World(job)
         orig_open = hbase.VFS_Real.open
+        orig_listdir = hbase.VFS_Real.listdir
         res = []
         try:
             for case in job["cases"]:
                 target, fault = case["path"], case["fault"]
+                nth = int(case.get("nth", 1))
+                call = case.get("call", "open")
                 saved = {}
+                calls = [0]
+
+                def hit(self, selector):
+                    if selector != target:
+                        return
+                    calls[0] += 1
+                    if calls[0] < nth or fault == "none":      # none: the fault-free reference
+                        return
+                    fsp = self.getfspath(selector)
+                    if fault == "eacces":
+                        raise PermissionError(errno.EACCES, "Permission denied", fsp)
+                    if fault == "eio":
+                        raise OSError(errno.EIO, "Input/output error", fsp)
+                    if fault == "emfile":
+                        raise OSError(errno.EMFILE, "Too many open files", fsp)
+                    if fault == "enoent":
+                        raise FileNotFoundError(errno.ENOENT, "No such file or directory", fsp)
+                    if fault == "vanish":
+                        fp = os.fsencode(fsp)
+                        if os.path.isfile(fp):
+                            st = os.stat(fp)
+                            with open(fp, "rb") as fh:
+                                saved[fp] = (fh.read(), (st.st_atime_ns, st.st_mtime_ns))
+                            os.unlink(fp)
 
                 def f_open(self, selector, *a, **k):
-                    if selector == target:
-                        if fault == "eacces":
-                            raise PermissionError(errno.EACCES, "Permission denied", self.getfspath(selector))
-                        if fault == "eio":
-                            raise OSError(errno.EIO, "Input/output error", self.getfspath(selector))
-                        if fault == "vanish":
-                            fp = os.fsencode(self.getfspath(selector))
-                            if os.path.exists(fp):
-                                with open(fp, "rb") as fh:
-                                    saved[fp] = fh.read()
-                                os.unlink(fp)
+                    if call == "open":
+                        hit(self, selector)
                     return orig_open(self, selector, *a, **k)
+
+                def f_listdir(self, selector, *a, **k):
+                    if call == "listdir":
+                        hit(self, selector)
+                    return orig_listdir(self, selector, *a, **k)
 
                 outs = []
                 for r in case["requests"]:
                     hbase.VFS_Real.open = f_open
+                    hbase.VFS_Real.listdir = f_listdir
+                    calls[0] = 0
                     try:
                         o = drv.serve_once(w.config, drv.s2b(r["data"]), tls=r.get("tls", False))
                     finally:
                         hbase.VFS_Real.open = orig_open
-                        for fp, data in saved.items():
+                        hbase.VFS_Real.listdir = orig_listdir
+                        for fp, (data, times) in saved.items():
+                            dst = os.stat(os.path.dirname(fp))
                             with open(fp, "wb") as fh:
                                 fh.write(data)
+                            os.utime(fp, ns=times)
+                            os.utime(os.path.dirname(fp), ns=(dst.st_atime_ns, dst.st_mtime_ns))
                         saved.clear()
-                    outs.append({"out": o["out"], "exc": o["exc"], "log": o["log"][-3:]})
+                    outs.append({"out": o["out"], "exc": o["exc"], "log": o["log"][-3:], "calls": calls[0]})
                 res.append({"results": outs})
             return {"cases": res}
         finally:
             hbase.VFS_Real.open = orig_open
+            hbase.VFS_Real.listdir = orig_listdir
             w.close()
 
     def op_fresh(job):
